@@ -153,20 +153,29 @@ def check(ctx):
     ctx.decide(ok, "R-DOM/draw", f"{rq.qual}.__init__", rq.where(ini), "identifiers are drawn only when no header is supplied",
                "identifiers are drawn although an explicit header was supplied (or the branch structure is not recognised)",
                key="no_header_branch")
-    # not crossed: value drawn for X feeds DiameterHeader(X=...)
-    env = {}
-    for s in walk_no_nested(ini):
-        if isinstance(s, ast.Assign) and isinstance(s.targets[0], ast.Name) and isinstance(s.value, ast.Call):
-            env[s.targets[0].id] = call_name(s.value)
+    # not crossed: value drawn for X feeds DiameterHeader(X=...)   (on terms: on some path the keyword X of the header
+    # construction is the result of calling the draw function of X; on no path the result of the other one)
+    from .. import sym as _sy
+    from ..astutil import strip_doc as _sd
+    ps_ = [a_.arg for a_ in ini.args.args if a_.arg != "self"]
+    try:
+        paths_ = [p_ for p_ in _sy.Interp(fold=lambda e: repo.fold(rq.mod, e), log_calls=True).run(
+            _sd(ini.body), _sy.PathState({a_: _sy.S(a_) for a_ in ps_}, [], [])) if p_.term != "raise"]
+    except _sy.TooMany:
+        paths_ = []
+    fed = {f: set() for f in draw}
+    for p_ in paths_:
+        for e in p_.effects:
+            if e[0] in ("ecall", "call") and isinstance(e[1], tuple) and e[1] and e[1][0] == "call" and _sy.show(e[1][1]) == "DiameterHeader":
+                kw_ = dict(e[1][3])
+                for f in draw:
+                    v_ = kw_.get(f)
+                    if isinstance(v_, tuple) and v_ and v_[0] == "call":
+                        fed[f].add(_sy.show(v_[1]).split(".")[-1])
     for f, fn in draw.items():
-        okf = False
-        for c in fn_calls(ini):
-            if call_name(c) == "DiameterHeader":
-                v = kwarg(c, f)
-                if isinstance(v, ast.Name) and env.get(v.id, "").endswith(fn.name):
-                    okf = True
-                if isinstance(v, ast.Call) and call_name(v).endswith(fn.name):
-                    okf = True
+        other = [g.name for k_, g in draw.items() if k_ != f]
+        okf = any(n_.endswith(fn.name) or fn.name.endswith(n_) for n_ in fed[f]) and not any(
+            n_.endswith(o_) or o_.endswith(n_) for n_ in fed[f] for o_ in other)
         ctx.decide(okf, "R-FLOW/draw", f"{rq.qual}.__init__", rq.where(ini), f"{f} of the header comes from the {f} registry",
                    f"the header's {f} is not the value drawn from the {f} registry (registries crossed or value dropped)", key=f"flow:{f}")
     # answers never draw
